@@ -205,6 +205,7 @@ class Engine:
         self.signed_inputs = set()
         self.redirects = {}
         self.cuts = {}
+        self.maporder = 0      # 1: map ranges run over the entries in reverse (Go leaves the order unspecified)
         self.env_vars = {}
         self.params = {}
         self.fnstack = []
@@ -1527,6 +1528,8 @@ class Engine:
                     continue
                 for k, pg, v in st.heap[obj].entries:
                     snap.append((k, g0, obj))
+            if self.maporder == 1:
+                snap.reverse()
         else:
             snap = it.snapshot
         i = it.pos
